@@ -470,4 +470,4 @@ def extra_coverage(stats) -> dict:
     return {"paths": "stapled, endpoint, tls aclose, tls wrap, tcpclient and lsn (the TCP listener machine) are compared with the Lean model; srvclient "
                      "(server-side client inside AsyncTCPNetworkServer), sockadapter, tcpconnect and aio (real sockets of the "
                      "asyncio backend) run against the oracle only",
-            "exhaustive": "cancellation after every task step 1..N of every listed configuration"}
+            "exhaustive_over": "cancellation after every task step 1..N of every listed configuration"}
